@@ -132,6 +132,66 @@ def assignment_histories(seed):
     return dict(cases=cases)
 
 
+def reordered_selections(seed):
+    """a selection contains exactly the chosen sub-cube, whatever ORDER the names are given in: under every chosen (source, receiver, frequency)
+    name triple the new survey holds -- looked up by the position of the names in its own sources / receivers / frequencies, which is how the
+    rest of emg3d addresses the data, and by coordinate label -- the datum, the noise floor, the relative error and the standard deviation the
+    original holds under these names; the sources / receivers / frequencies themselves are those of the original."""
+    import itertools
+    cases = 0
+    shape = (3, 4, 3)
+    sels = [dict(sources=['TxED-3', 'TxED-1']), dict(receivers=['RxEP-4', 'RxEP-2', 'RxEP-3'], sources=['TxED-2']),
+            dict(frequencies=['f-3', 'f-1']), dict(sources=['TxED-2', 'TxED-3', 'TxED-1'], receivers=['RxEP-2', 'RxEP-1'], frequencies=['f-2', 'f-3', 'f-1']),
+            dict(sources=['TxED-1', 'TxED-3'], frequencies=['f-2'])]
+    for nfk, rek, explicit in (('src', 'freq', False), ('scalar', 'full', True), ('rec', None, False)):
+        orig, obs, nf, re, sd = make_survey(shape, seed + 300 + cases, nfk, rek, explicit)
+        names0 = [list(orig.sources), list(orig.receivers), list(orig.frequencies)]
+        full0 = {k: np.array(orig.data[k].data, copy=True) for k in orig.data.keys()}
+        for nm in ('noise_floor', 'relative_error', 'standard_deviation'):
+            v = getattr(orig, nm)
+            full0['getter:' + nm] = None if v is None else np.broadcast_to(np.asarray(getattr(v, 'data', v)), shape).copy()
+        for sel in sels:
+            cases += 1
+            lab = dict(shape=shape, nf=nfk, re=rek, explicit=explicit, selection=sel)
+            new = orig.select(remove_empty=False, **sel)
+            want = [sel.get('sources', names0[0]), sel.get('receivers', names0[1]), sel.get('frequencies', names0[2])]
+            names1 = [list(new.sources), list(new.receivers), list(new.frequencies)]
+            if [sorted(x) for x in names1] != [sorted(x) for x in want]:
+                return dict(cases=cases, clause='selection does not have exactly the chosen names', got=names1, want=want, **lab)
+            if [list(new.data[c].values) for c in ('src', 'rec', 'freq')] != names1:
+                return dict(cases=cases, clause='coordinate labels of the data of the selection are not its source / receiver / frequency names', **lab)
+            for d, (a, b) in enumerate(((new.sources, orig.sources), (new.receivers, orig.receivers), (new.frequencies, orig.frequencies))):
+                for n in names1[d]:
+                    if a[n] != b[n]:
+                        return dict(cases=cases, clause=f'{n} of the selection is not {n} of the original', **lab)
+            full1 = {k: np.asarray(new.data[k].data) for k in new.data.keys()}
+            for nm in ('noise_floor', 'relative_error', 'standard_deviation'):
+                v = getattr(new, nm)
+                full1['getter:' + nm] = None if v is None else np.broadcast_to(np.asarray(getattr(v, 'data', v)), new.shape)
+            if sorted(full1) != sorted(full0):
+                return dict(cases=cases, clause='data sets of the selection are not those of the original', got=sorted(full1), want=sorted(full0), **lab)
+            for k in full0:
+                if (full0[k] is None) != (full1[k] is None):
+                    return dict(cases=cases, clause=f'{k}: None in one of original / selection only', **lab)
+                if full0[k] is None:
+                    continue
+                # by position: the sub-cube of the original in the order of the NEW survey's names
+                sub = full0[k][np.ix_(*[[names0[d].index(n) for n in names1[d]] for d in range(3)])]
+                got = {'by position in its sources / receivers / frequencies': full1[k]}
+                if not k.startswith('getter:'):
+                    # by label: re-read in the order of the ORIGINAL's names, compared with the original's sub-cube in its own order
+                    keep = [[n for n in names0[d] if n in names1[d]] for d in range(3)]
+                    got['by coordinate label'] = (np.asarray(new.data[k].sel(src=keep[0], rec=keep[1], freq=keep[2]).data),
+                                                  full0[k][np.ix_(*[[names0[d].index(n) for n in keep[d]] for d in range(3)])])
+                for how, a in got.items():
+                    a, b = a if isinstance(a, tuple) else (a, sub)
+                    if a.shape != b.shape or not np.array_equal(a, b, equal_nan=True):
+                        bad = [t for t in itertools.product(*[range(n) for n in b.shape]) if not np.array_equal(a[t], b[t], equal_nan=True)] if a.shape == b.shape else []
+                        return dict(cases=cases, clause=f'selection with re-ordered names: {k} (looked up {how}) is not that of the original under the same names',
+                                    first_bad_index=bad[:1], n_bad=len(bad), got=str(a[bad[0]]) if bad else str(a.shape), want=str(b[bad[0]]) if bad else str(b.shape), **lab)
+    return dict(cases=cases)
+
+
 def check(tier='quick', seed=0):
     import emg3d
     cases = 0
@@ -198,6 +258,11 @@ def check(tier='quick', seed=0):
                     k = same_state(before, noise_state(survey)) or same_state(before, noise_state(cp))
                     if k:
                         return fail(clause=f'copy / to_dict changed or lost {k}', shape=shape, nf=nfk, re=rek, explicit=explicit)
+    # ---- selections with names in another order than the survey's (partial, permuted): everything follows its NAME
+    r = reordered_selections(seed)
+    cases += r.pop('cases')
+    if r:
+        return fail(**r)
     # ---- histories of explicit assignments: what is read back, the standard deviation, copies and selections follow the value assigned LAST
     r = assignment_histories(seed)
     cases += r.pop('cases')
